@@ -13,7 +13,6 @@ let var_ix (t : string) : int = int_of_string (String.sub t 1 (String.length t -
 let var_list (t : string) : int list = if t = "-" then [] else List.map var_ix (String.split_on_char ',' t)
 let flist (t : string) : f64 list = if t = "-" then [] else List.map f_of_hex (String.split_on_char ',' t)
 
-let run_lowerf (_ : string) : string = "- ||| -"
 
 (* solvef: the only modelled part is the DISPATCH (coq/Model/FloatDispatch.v): the case line is abstracted into the list of
    posts and the extracted gate predicates are evaluated; printed as the model part `gate=<0|1> fp=<0|1>` (gate = the root LP
@@ -35,26 +34,71 @@ let vars_in (s : string) : int list =
   go 0 []
 let contains (s : string) (sub : string) : bool =
   try ignore (Str.search_forward (Str.regexp_string sub) s 0); true with Not_found -> false
+(* ExprBuilder::mul folds a multiplication by the INTEGER literal 1 at build time (runtime_api/mod.rs, `pub fn mul`) *)
+let fold_mul_one (cons : string) : string =
+  let c = Str.global_replace (Str.regexp "mul(\\(x[0-9]+\\),1)") "\\1" cons in
+  Str.global_replace (Str.regexp "mul(1,\\(x[0-9]+\\))") "\\1" c
 let is_plain_var (t : string) : bool = Str.string_match (Str.regexp "^x[0-9]+$") t 0
 let is_plain_const (t : string) : bool = Str.string_match (Str.regexp "^\\(f:[0-9a-f]+\\|-?[0-9]+\\)$") t 0
+(* declared variable kinds: true = float *)
+let decl_kinds (decls : string) : bool array =
+  Array.of_list (List.map (fun d -> match words d with "F" :: _ -> true | _ -> false)
+                   (List.filter (fun d -> String.trim d <> "") (String.split_on_char '|' decls)))
+let any_float (kinds : bool array) (vs : int list) : bool =
+  List.exists (fun v -> v < Array.length kinds && kinds.(v)) vs
+let is_float_kind k = (k = KFloatLin)
+
+(* lowerf: the modelled part is the KIND of propagator family every linear post is materialised as (Coq: linear_lowering);
+   printed as the model part `kinds=<F|I>:<v,v,..> ...` in posting order, one item per lin / ilin / linear fluent post
+   (Var == Val excluded: it is materialised as an Eq propagator). *)
+let run_lowerf (line : string) : string =
+  let parts = List.map String.trim (String.split_on_char ';' line) in
+  match parts with
+  | _ :: decls :: rest ->
+    let kinds = decl_kinds decls in
+    let items = List.filter_map (fun p ->
+        let item il vs = Some ((if is_float_kind (linear_lowering il (any_float kinds vs)) then "F:" else "I:")
+                               ^ String.concat "," (List.map string_of_int (List.sort compare vs))) in
+        match words p with
+        | ["lin"; _; _; xs; _] -> item false (var_list xs)
+        | ["ilin"; _; _; xs; _] -> item true (var_list xs)
+        | ["new"; cons] ->
+          let cons = fold_mul_one cons in
+          let inner = String.sub cons (String.index cons '(' + 1) (String.length cons - String.index cons '(' - 2) in
+          let op = String.sub cons 0 (String.index cons '(') in
+          let vv = op = "eq" && not (String.contains inner '(') &&
+                   (match String.split_on_char ',' inner with
+                    | [a; b] -> (is_plain_var a && is_plain_const b) || (is_plain_const a && is_plain_var b)
+                    | _ -> false) in
+          if vv || contains cons "div(" then None else item (not (contains cons "f:")) (vars_in cons)
+        | ["props"; k; _; xs; _] when String.length k > 4 && String.sub k 0 4 = "flin" ->
+          Some ("F:" ^ String.concat "," (List.map string_of_int (List.sort compare (var_list xs))))
+        | _ -> None) rest in
+    "kinds=" ^ (if items = [] then "-" else String.concat " " items) ^ " ||| -"
+  | _ -> failwith "lowerf syntax"
+
 let run_solvef (line : string) : string =
   let parts = List.map String.trim (String.split_on_char ';' line) in
   let posts = ref [] and entry = ref [] and lp = ref false and fp = ref false and outside = ref false in
+  let kinds = match parts with _ :: decls :: _ -> decl_kinds decls | _ -> [||] in
   (match parts with
    | _ :: _ :: rest ->
      List.iter (fun p ->
          match words p with
          | [] -> ()
          | ["lin"; rel; _; xs; _] -> posts := !posts @ [PLin (true, rel_of rel, var_list xs)]
-         | ["ilin"; rel; _; xs; _] -> posts := !posts @ [PLin (false, rel_of rel, var_list xs)]
+         | ["ilin"; rel; _; xs; _] ->
+           posts := !posts @ [PLin (is_float_kind (linear_lowering true (any_float kinds (var_list xs))), rel_of rel, var_list xs)]
          | ["new"; cons] ->
+           let cons = fold_mul_one cons in
            let op = String.sub cons 0 (String.index cons '(') in
            let inner = String.sub cons (String.index cons '(' + 1) (String.length cons - String.index cons '(' - 2) in
            let vv = op = "eq" && not (String.contains inner '(') &&
                     (match String.split_on_char ',' inner with
                      | [a; b] -> (is_plain_var a && is_plain_const b) || (is_plain_const a && is_plain_var b)
                      | _ -> false) in
-           posts := !posts @ [PNew (rel_of op, vars_in cons, not (contains cons "f:"), vv)]
+           let il = not (contains cons "f:") in
+           posts := !posts @ [PNew (rel_of op, vars_in cons, not (is_float_kind (linear_lowering il (any_float kinds (vars_in cons)))), vv)]
          | ["props"; k; _; xs; _] when String.length k > 4 && String.sub k 0 4 = "flin" ->
            posts := !posts @ [PFlin (rel_of (String.sub k 4 (String.length k - 4)), var_list xs)]
          | ["props"; k; a; b] ->
